@@ -728,3 +728,41 @@ mod tests {
         let _ = env_logger::builder().format_timestamp(None).try_init();
     }
 }
+
+#[cfg(feature = "verif_hooks")]
+impl<F: RichField + Extendable<D>, const D: usize> CircuitBuilder<F, D> {
+    /// Read-only wrapper for the external verification harness: the private
+    /// `verify_proof_with_challenges` with the challenges given as targets.
+    #[allow(clippy::too_many_arguments)]
+    pub fn verif_verify_proof_with_challenges<C: GenericConfig<D, F = F>>(
+        &mut self,
+        proof: &ProofTarget<D>,
+        public_inputs_hash: HashOutTarget,
+        plonk_betas: Vec<crate::iop::target::Target>,
+        plonk_gammas: Vec<crate::iop::target::Target>,
+        plonk_alphas: Vec<crate::iop::target::Target>,
+        plonk_deltas: Vec<crate::iop::target::Target>,
+        plonk_zeta: crate::iop::ext_target::ExtensionTarget<D>,
+        fri_challenges: crate::fri::proof::FriChallengesTarget<D>,
+        inner_verifier_data: &VerifierCircuitTarget,
+        inner_common_data: &CommonCircuitData<F, D>,
+    ) where
+        C::Hasher: AlgebraicHasher<F>,
+    {
+        let challenges = ProofChallengesTarget {
+            plonk_betas,
+            plonk_gammas,
+            plonk_alphas,
+            plonk_deltas,
+            plonk_zeta,
+            fri_challenges,
+        };
+        self.verify_proof_with_challenges::<C>(
+            proof,
+            public_inputs_hash,
+            challenges,
+            inner_verifier_data,
+            inner_common_data,
+        )
+    }
+}
